@@ -50,7 +50,7 @@ def main():
             res["demo_with_patch_exit"] = rc
             res["checks"] = {}
             for pid in pids:
-                rc, out = sh(f"./check {pid} quick", ROOT, env={"PYPRED_REPO": wt})
+                rc, out = sh(f"./check {pid} quick", ROOT, env={"PYPRED_REPO": wt, "VERIF_EVIDENCE_DIR": "/tmp/seeded_evidence"})
                 lines = [l for l in out.split("\n") if l.startswith(("VIOLATION", "KNOWN-FINDING", "[", "HARNESS"))]
                 res["checks"][pid] = {"exit": rc, "lines": [l[:400] for l in lines]}
         finally:
